@@ -247,7 +247,7 @@ func c15(sum *lib.Summary) {
 	coqEvery := 170
 	if *tier == "thorough" {
 		nrand, nstraddle, ntriple, nscript = 6000, 2500, 20000, 1500
-		coqEvery = 70
+		coqEvery = 110
 	}
 	sum.Rule = "Fix64, UFix64, Fix128, UFix128 x {+,-,*,/,%, negate, saturatingAdd/Subtract/Multiply/Divide (as declared by sema), multiplyDivide x 4 rounding rules, < <= > >= ==}: " +
 		"all pairs of a boundary lattice (0, +-1..3 units, +-0.5, +-1.0, +-2.0, +-10.0, sqrt(max) and sqrt(unit) neighbours, largest integer, max/2, min, max, +-1, 2^31..2^127 neighbours), " +
